@@ -620,3 +620,22 @@ PROPS["C28"] = {
               "thorough": {"evaluations": 35000, "distinct": 25000}},
     "assumptions": ["whether PropertiesChanged precedes or follows the method return is not judged", "any error reply counts as a rejection (the property does not name the errors)"],
 }
+
+PROPS["C33"] = {
+    "level": "exploration",
+    "plan": gen_plan("zg", 12, 40, 3, thorough_layers=("release", "tsan")),
+    "rule": ("the same GENERATED interfaces, each with the proxy pair (async + blocking) the interface macro generates; drivers emitted by the generator "
+             "exercise 6..20 (..46 thorough) random operations per proxy with seed-driven typed values: method calls (the handler's "
+             "invocation log must show exactly the digest of the caller's arguments, the caller must get the handler's typed result or "
+             "its typed error), property reads (== the value the server holds, tracked through the writes), property writes (incl. "
+             "setter refusals), signals (subscribe, make the interface emit, the stream item's arguments == the emitted ones), with "
+             "property caching lazily / upfront / off; async proxies: two zbus connections joined by two scripted transports (read "
+             "chunks 1/7/64/whole) under 5 scheduler biases, quiescence between operations; blocking proxies (1/5 of the cases): a real "
+             "socketpair with the library's own executor threads, each operation under a 120 s wall-clock guard whose firing is "
+             "INCONCLUSIVE; distinct = distinct (operation history, schedule)"),
+    "gates": {"quick": {"evaluations": 950, "distinct": 700, "operations_checked": 15000, "class:op-call": 6000, "class:op-get": 3000, "class:op-set": 1500, "class:op-signal": 1500,
+                        "class:blocking-proxy": 150, "class:async-proxy": 700},
+              "thorough": {"evaluations": 30000, "distinct": 20000}},
+    "assumptions": ["a cached property is refreshed by a background task after PropertiesChanged: async cases run to quiescence between operations, blocking cases wait 20 ms before a cached read",
+                    "the object server is started before the first call (a call racing with its on-demand start can be lost: listed finding of C30)"],
+}
